@@ -193,6 +193,16 @@ prop("C17", "the registered handler follows the connection", "fault_enumeration"
      "exactly once. Non-trivial = >= 1 judged message on a connection after the first; distinct = FNV-64 of the case JSON.",
      [dict(tests="^TestVerifC17_Handler$", checks_quick=3000, checks_thorough=15000, shards=12)])
 
+prop("C18", "with a response timeout a silent broker cannot stall the client", "fault_enumeration",
+     E4RULE + "C18: ResponseTimeout 5..20 ms, keep-alive off; 1..3 dropAck faults (PUBACK, PUBREC, PUBCOMP, SUBACK, UNSUBACK processed by "
+     "the broker but silently not sent, link stays up) on the connection of the first transmission or on the one where the request "
+     "is being retransmitted, optionally combined with a cut. Oracle per drop (unless the broker cut that link first): OnError "
+     "receives an error for which errors.As(**RequestTimeoutError) holds, the client closes that transport itself, a new dial "
+     "follows, and at quiescence every accepted request is acknowledged; a client idle for 3 s on a live connection with the "
+     "request unacknowledged is a violation. No upper time bound is asserted. Non-trivial = >= 1 acknowledgement was dropped; "
+     "distinct = FNV-64 of the case JSON.",
+     [dict(tests="^TestVerifC18_ResponseTimeout$", checks_quick=1200, checks_thorough=6000, shards=16)])
+
 # ---------------------------------------------------------------------------------------------
 # texts for MANIFEST.json (tools/gen_manifest.py)
 
@@ -292,3 +302,7 @@ mtext("C17", "E4 history runner + E3 broker model injecting inbound traffic",
       "rapid fault-injection property test; oracle = each injected message is received by the handler in force according to the global event log",
       "Sampling of Handle placements x reconnects x injection points; 'in force' is derived from sequence numbers on one timeline, with the "
       "racing class accepted either way, so the oracle cannot false-alarm on schedules.", E4NOTE, "DESIGN.md section 4 / C17")
+
+mtext("C18", "E4 history runner + E3 broker model dropping acknowledgements",
+      "rapid fault-injection property test; oracle = RequestTimeoutError reported, link closed and redialled, request acknowledged later; stuck detector for 'waits indefinitely'",
+      "Sampling over request kinds x exchange phase x connection (incl. the retransmitting one) on which the acknowledgement is dropped.", E4NOTE, "DESIGN.md section 4 / C18")
